@@ -7,7 +7,7 @@ def build(ctx):
     return ctx.compile("xml_h", [ctx.verif("harness/xml_h.cpp")] + [ctx.repo(s) for s in SRC])
 
 def params(tier):
-    return dict(parse_len=5, valtok=2, texttok=2) if tier == "quick" else dict(parse_len=6, valtok=2, texttok=3)
+    return dict(parse_len=5, valtok=2, texttok=2, sizes=300) if tier == "quick" else dict(parse_len=6, valtok=2, texttok=3, sizes=1200)
 
 def run(ctx):
     from checks import handles
@@ -15,19 +15,21 @@ def run(ctx):
     b = build(ctx)
     ctx.run_shards(b, ["--mode", "deep"], nshards=4, label="xml deep")
     ctx.run_shards(b, ["--mode", "round", "--valtok", str(p["valtok"]), "--texttok", str(p["texttok"])], label="xml roundtrip")
+    ctx.run_shards(b, ["--mode", "sizes", "--len", str(p["sizes"])], label="xml sizes")
     ctx.run_shards(b, ["--mode", "comments", "--valtok", "1", "--texttok", "1"], label="xml comments")
     ctx.run_shards(b, ["--mode", "parse", "--len", str(p["parse_len"])], label="xml parse")
     handles.run_xml(ctx)
     c = ctx.counters
-    ev = sum(c.get(k, 0) for k in ("parse_inputs", "deep_inputs", "roundtrip_trees", "comment_documents")) + c.get("transitions", 0)
+    ev = sum(c.get(k, 0) for k in ("parse_inputs", "deep_inputs", "roundtrip_trees", "comment_documents", "size_documents")) + c.get("transitions", 0)
     cov = {"evaluations": int(ev), "distinct_nontrivial": int(c.get("distinct_nontrivial", 0)),
            "rule": "parse: every string of <= %d tokens over a 27-token alphabet (< > / = \" ' ? ! - & ; # a b SP LF CR 1 x <!-- --> <? ?> </ /> &amp; &#65;) "
                    "through both entry points, exactly sized heap copy under ASan, time and memory watchdog, error line/column against the line structure; "
                    "nesting 1..1000; round trip: element trees with <= 3 elements, <= 2 attributes, values of <= %d tokens over {a \" ' & < > LF CR SP e-acute "
-                   "&#65; &amp;}, non-blank non-adjacent text of <= %d tokens over {a SP / = \" & < LF}; comments: every tree serialised by the harness with "
+                   "&#65; &amp;}, non-blank non-adjacent text of <= %d tokens over {a SP / = \" & < LF}; sizes: attribute values and texts a^{0,1} c^n z^{0,1,3} for every "
+                   "escaped character c and n = 0..%d (every reallocation point of the escaper); comments: every tree serialised by the harness with "
                    "one of three comment forms at every token boundary (white-space separated inside tags) and processing instructions with a line break "
                    "before the root; plus the Xml::Variant handle histories (copy, assignment, toElement() on shared values)"
-                   % (p["parse_len"], p["valtok"], p["texttok"]),
+                   % (p["parse_len"], p["valtok"], p["texttok"], p["sizes"]),
            "exhaustive": True, "bounds": p, "handle_states": int(c.get("states", 0)),
            "parse_accepted": int(c.get("parse_accepted", 0)), "parse_rejected": int(c.get("parse_rejected", 0))}
     return ctx.finish("exploration", cov, ["inputs are NUL-terminated", "comments inside tags are separated from names by white space"], tags=["C16"])
